@@ -1,0 +1,23 @@
+//go:build verif
+
+package node
+
+import (
+	"context"
+
+	corev1 "k8s.io/api/core/v1"
+	"k8s.io/client-go/tools/record"
+	"sigs.k8s.io/controller-runtime/pkg/client"
+
+	networkv1beta1 "github.com/AliyunContainerService/terway/pkg/apis/network.alibabacloud.com/v1beta1"
+)
+
+// VerifNodeAdvertise runs the two functions that publish node capacity (annotations, extended
+// resources) for the given Node CR over an injected client.
+func VerifNodeAdvertise(ctx context.Context, c client.Client, rec record.EventRecorder, k8sNode *corev1.Node, node *networkv1beta1.Node) error {
+	r := &ReconcileNode{client: c, record: rec}
+	if err := r.k8sAnno(ctx, k8sNode, node); err != nil {
+		return err
+	}
+	return r.patchNodeRes(ctx, k8sNode, node)
+}
